@@ -8,6 +8,7 @@ testing in the `pages` suite built with the `crc32c` feature, not by a theorem.
 -/
 import E57.Proofs.CrcAlgebra
 import E57.Proofs.PagesRead
+import E57.Proofs.CrcBurst
 namespace E57.C07
 open E57
 
@@ -73,9 +74,6 @@ theorem straddlingBurst_drop : straddlingBurst.drop 1020 = [0x37, 0, 0, 0] := by
   rw [straddlingBurst, List.drop_left' straddlingBurst_payload_length]
   rfl
 
-theorem crcRaw_append (i : UInt32) (a b : Bytes) : crcRaw i (a ++ b) = crcRaw (crcRaw i a) b := by
-  simp [crcRaw, List.foldl_append]
-
 theorem straddlingBurst_tail : ([0x37, 0, 0, 0] : Bytes) = toBE32 (crcRaw 0 [0xc0, 0x2e, 0x8d, 0x5e]).toNat := by
   decide +kernel
 
@@ -89,6 +87,33 @@ theorem straddlingBurst_syndrome :
 theorem burst_straddling_undetected (p : Bytes) (hp : p.length = 1024) (hok : pageOk p = true) :
     pageOk (xorBytes p straddlingBurst) = true :=
   (alteration_undetected_iff p straddlingBurst hp straddlingBurst_length hok).2 straddlingBurst_syndrome
+
+/-- **Bursts.**  Every alteration confined to a window of at most 32 bits (bit `8k+j` = bit `j`,
+    least significant first, of byte `k`) that lies inside the payload or inside the stored
+    checksum is detected. -/
+theorem detects_burst_not_straddling (p e : Bytes) (hp : p.length = 1024) (he : e.length = 1024)
+    (hok : pageOk p = true) (s len : Nat) (h32 : len ≤ 32) (hin : s + len ≤ 8160 ∨ 8160 ≤ s)
+    (hwin : ∀ i, bitOf e i = true → s ≤ i ∧ i < s + len) (hne : ∃ i, bitOf e i = true) :
+    pageOk (xorBytes p e) = false := detect_burst p e hp he hok s len h32 hin hwin hne
+
+/-- byte-aligned formulation (independent of the bit order inside a byte): any non-zero alteration
+    confined to at most 4 consecutive bytes of the payload, or of the checksum, is detected -/
+theorem detects_burst_bytes (p e : Bytes) (hp : p.length = 1024) (he : e.length = 1024)
+    (hok : pageOk p = true) (a n : Nat) (hn : n ≤ 4) (hin : a + n ≤ 1020 ∨ 1020 ≤ a)
+    (hwin : ∀ k : Nat, e[k]! ≠ 0 → a ≤ k ∧ k < a + n) (hne : ∃ k : Nat, e[k]! ≠ 0) :
+    pageOk (xorBytes p e) = false := detect_burst_bytes p e hp he hok a n hn hin hwin hne
+
+/-- with the checksum bytes taken in codeword order (reversed), EVERY burst of up to 32 bits is
+    detected wherever it lies — the straddling exception is due to the big-endian storage alone -/
+theorem detects_burst_in_codeword_order (p e : Bytes) (hp : p.length = 1024) (he : e.length = 1024)
+    (hok : pageOk p = true) (s len : Nat) (h32 : len ≤ 32)
+    (hwin : ∀ i, bitOf (codeword e) i = true → s ≤ i ∧ i < s + len)
+    (hne : ∃ i, bitOf (codeword e) i = true) : pageOk (xorBytes p e) = false :=
+  detect_burst_codeword p e hp he hok s len h32 hwin hne
+
+/-- 32 is sharp: the generator polynomial itself is a 33-bit burst inside the payload that no page detects -/
+theorem burst_33_bits_undetected (p : Bytes) (hp : p.length = 1024) (hok : pageOk p = true) :
+    pageOk (xorBytes p burst33) = true := burst33_undetected p hp hok
 
 /-! ## data from a corrupt page is never handed out -/
 
